@@ -14,7 +14,7 @@ def sh(cmd, **kw):
 
 
 name, patch, checks = sys.argv[1], sys.argv[2], sys.argv[3].split(",")
-if sh("git -C /repo status --porcelain").stdout.strip():
+if os.environ.get("BENIGN_WORKTREE") != "1" and sh("git -C /repo status --porcelain").stdout.strip():
     sys.exit("refusing: /repo not clean")
 wt = f"/tmp/benverify_{name}"
 sh(f"git -C /repo worktree remove --force {wt}")
@@ -27,11 +27,21 @@ try:
 finally:
     sh(f"git -C /repo worktree remove --force {wt}")
 res = {"name": name, "tests": tests, "checks": {}}
-if sh(f"git -C /repo apply {patch}").returncode:
+# BENIGN_WORKTREE=1: run the checks against a scratch worktree carrying the patch (VERIF_REPO) instead of patching /repo itself, so that several
+# behaviour-preserving patches can be evaluated side by side
+USE_WT = os.environ.get("BENIGN_WORKTREE") == "1"
+wt2 = f"/tmp/benrun_{name}"
+if USE_WT:
+    sh(f"git -C /repo worktree remove --force {wt2}")
+    sh(f"git -C /repo worktree add --detach {wt2} HEAD -q")
+    if sh(f"git -C {wt2} apply {patch}").returncode:
+        sys.exit("patch does not apply")
+    res["mode"] = "scratch worktree (VERIF_REPO)"
+elif sh(f"git -C /repo apply {patch}").returncode:
     sys.exit("patch does not apply to /repo")
 try:
     for c in checks:
-        rc = sh(f"./check {c}", cwd=VERIF, timeout=3600, env=dict(os.environ, VERIF_OUT_DIR=f"/tmp/benout_{name}"))
+        rc = sh(f"./check {c}", cwd=VERIF, timeout=3600, env=dict(os.environ, VERIF_OUT_DIR=f"/tmp/benout_{name}", **({"VERIF_REPO": wt2} if USE_WT else {})))
         lines = [ln for ln in rc.stdout.splitlines() if ln.startswith(("VIOLATION", "[", "CHECKER"))]
         res["checks"][c] = {"exit": rc.returncode, "lines": lines[-6:]}
         if rc.returncode != 0:
@@ -44,8 +54,11 @@ try:
                     except Exception:
                         pass
 finally:
-    sh("git -C /repo checkout -- .")
-    sh("git -C /repo clean -fdq -- ufl")
+    if USE_WT:
+        sh(f"git -C /repo worktree remove --force {wt2}")
+    else:
+        sh("git -C /repo checkout -- .")
+        sh("git -C /repo clean -fdq -- ufl")
     sh(f"rm -rf /tmp/benout_{name}")
 os.makedirs(os.path.join(VERIF, "seeded", "benign"), exist_ok=True)
 json.dump(res, open(os.path.join(VERIF, "seeded", "benign", name + ".json"), "w"), indent=1)
